@@ -213,7 +213,11 @@ func (d *Deps) check(overlay map[string][]byte) (*Prog, error) {
 		}
 		conf := types.Config{
 			Importer:  imp,
-			GoVersion: "go1.12",
+			// no language-version restriction: the module says go 1.12 but uses
+			// later features (unsafe.Add, generics); version errors are dependency
+			// drift, not defects, and a variant must not become unanalysable
+			// merely because it uses newer syntax
+			GoVersion: "",
 			Sizes:     types.SizesFor("gc", arch),
 			Error: func(err error) {
 				if te, ok := err.(types.Error); ok {
